@@ -12,5 +12,6 @@ go build -o bin/extract ./cmd/extract
 ./bin/extract -repo "$REPO" -out "$DIR/lean/HermesModel/Generated" -facts "$DIR/evidence/facts.json"
 go build -tags verif -o bin/check ./cmd/check
 cd "$DIR/lean"
+VERIF_DIR="$DIR" python3 "$DIR/bin/gen_roots.py"
 lake build
 echo "setup done"
